@@ -167,6 +167,10 @@ TEXT_KW = {
     'fontweight': {'fontweight': 'light'},
     'weight': {'weight': 'light'},
     'rotation': {'rotation': 45},
+    # the font family under each of its spellings (a stored fontname must not win over the caller's family)
+    'family': {'family': 'serif'},
+    'fontfamily': {'fontfamily': 'monospace'},
+    'fontname': {'fontname': 'serif'},
     # an explicit None asks matplotlib for its own default: it still overrides the stored attribute
     'fontsize_none': {'fontsize': None},
     'color_none': {'color': None},
@@ -218,6 +222,10 @@ def configs(tier):
         for s in POLY_SCALES:
             for c in C:
                 out.append(K.polygon_spec(name, s, c))
+    # needles a hair away from a quarter turn: the far ends are where a rounded angle shows
+    for cls in ('rectangle', 'ellipse'):
+        for (w, h, a) in ((40000.0, 1.0, 270.0025), (6000.0, 0.5, 1080.01), (1.0, 20000.0, 89.998), (30000.0, 2.0, -90.003)):
+            out.append({'cls': cls, 'center': [0.5, -0.25], 'width': w, 'height': h, 'angle': [a, 'deg', 'quantity'], 'route': 'fresh'})
     # polygons whose integral vertices are held in a (narrow, unsigned) numpy integer type, e.g. read from a table column
     for dt in ('uint8', 'int16', 'uint16', 'int64'):
         out.append({'cls': 'polygon', 'vertices': [[1, 9, 9, 4], [2, 2, 8, 6]], 'vertex_dtype': dt, 'name': 'int_quad'})
@@ -444,7 +452,8 @@ def bbox_spec(b):
 
 # ------------------------------------------------ expected attributes -------
 _ALIAS = {'ec': 'edgecolor', 'lw': 'linewidth', 'fc': 'facecolor', 'mec': 'markeredgecolor',
-          'ms': 'markersize', 'mew': 'markeredgewidth', 'size': 'fontsize', 'weight': 'fontweight'}
+          'ms': 'markersize', 'mew': 'markeredgewidth', 'size': 'fontsize', 'weight': 'fontweight',
+          'family': 'fontfamily', 'fontname': 'fontfamily', 'name': 'fontfamily'}
 
 
 def _expect(kind, vis, kw):
@@ -484,6 +493,8 @@ def _expect(kind, vis, kw):
             exp['fontweight'] = (vis['fontweight'], 'visual')
         if 'textangle' in vis:
             exp['rotation'] = (vis['textangle'], 'visual')
+        if 'fontname' in vis:
+            exp['fontfamily'] = (vis['fontname'], 'visual')
     for k, v in kw.items():
         k = _ALIAS.get(k, k)
         if k in ('width', 'transform'):
@@ -519,6 +530,9 @@ def _observe(kind, artist, attr, exp):
         return bool(artist.get_fill()), bool(exp)
     if attr in ('marker', 'fontweight'):
         return getattr(artist, 'get_' + attr)(), exp
+    if attr == 'fontfamily':
+        got = artist.get_fontfamily()
+        return (list(got) if not isinstance(got, str) else [got]), [exp]
     raise ValueError(attr)
 
 
